@@ -18,6 +18,145 @@ HOST_STMTS = ["limit = limit * 2", "limit += 1", "hostlist.append(limit)", "prin
               "limit = len(hostlist)", "hostlist = [limit]", "print(hostfn(limit))"]
 
 
+ATOMS = ["limit", "hostlist", "log", "1", "\"s\"", "true", "nil", "hostfn", "len", "t", "7"]
+# every expression / simple-statement form with one hole for the operand that gets rejected (A = an operand that compiles)
+REJECT_FORMS = [
+    "A | %s", "A | %s | hostfn", "A | hostfn(%s)", "A | hostfn | %s", "%s | hostfn", "A | t(1, %s)", "A | (A | len)", "A | %s(A)",
+    "hostfn(%s)", "hostfn(A, %s)", "%s(A)", "t(1, %s)", "hostfn(A, A, %s)", "print(%s)", "len(%s)",
+    "hostlist[%s]", "%s[0]", "hostlist[0:%s]", "hostlist[%s:]",
+    "A + %s", "%s * A", "A == %s", "%s < A", "A - %s", "A != %s",
+    "-%s", "!%s",
+    "%s ? A : A", "true ? %s : A", "false ? A : %s",
+    "'v={%s}'", "'{A} and {%s}'", "'{%s}{A}'",
+    "[A, %s]", "[%s]", "{\"k\": %s}", "{\"k\": A, \"j\": %s}", "{A, %s}",
+    "%s in hostlist", "A in %s",
+    "%s.append", "hostlist.append(%s)", "%s.append(A)",
+    "limit = %s", "limit += %s", "hostlist[0] = %s", "zq_N := %s", "var zq_N = %s", "const zq_N = %s", "limit, zq_N = [1, %s]",
+    "if %s { 1 }", "switch %s { case 1: 2 }", "if A { %s }", "for i := range %s { }", "for %s { break }",
+    "func() { return %s }", "func(a) { return a + %s }(1)", "func zq_N() { return %s }", "func(a=%s) { return a }",
+    "A && %s", "A || %s", "%s && A", "%s || A",
+    "go hostfn(%s)", "defer hostfn(%s)", "%s++", "return %s", "hostlist | len | %s",
+]
+
+
+def reject_piece(rng, n):
+    """a one-statement piece the compiler rejects: an undefined name (or a nested pipe) somewhere inside an expression form"""
+    u = "uq_%d" % n
+    inner = u
+    for _ in range(rng.below(3)):
+        f = rng.choice(REJECT_FORMS[:43])
+        if "'" in f and ("'" in inner or '"' in inner):
+            continue
+        if "%s" in f:
+            inner = "(" + (f % inner) + ")" if not f.startswith("'") else (f % inner)
+    f = rng.choice(REJECT_FORMS)
+    if "'" in f and ("'" in inner or '"' in inner):
+        inner = u
+    text = (f % inner) if "%s" in f else f
+    out = ""
+    for ch in text:
+        out += rng.choice(ATOMS) if ch == "A" else ch
+    return out.replace("zq_N", "zq_%d" % n)
+
+
+BLOCK_WORDS = ("func", "for", "if", "switch")
+INERT_OPS = {"LOAD_GLOBAL", "LOAD_CONST", "LOAD_FAST", "LOAD_FREE", "NIL", "TRUE", "FALSE"}
+
+
+def inert_reject(piece, api_result):
+    """class predicate (complement of the known finding compile-rejected-piece-not-rolled-back), decided on the failing input
+    itself: the rejected piece enters no function / loop / block, and - as observed on the compiler - it declared no symbol,
+    created no code object and had emitted nothing but plain loads of names and constants when it was rejected"""
+    import re
+    if re.search(r"\b(%s)\b" % "|".join(BLOCK_WORDS), piece):
+        return False
+    f = dict(x.split("=", 1) for x in api_result.split() if "=" in x)
+    if f.get("syms") != "0" or f.get("codes") != "0" or "left" not in f:
+        return False
+    return f["left"] == "-" or all(o in INERT_OPS for o in f["left"].split(","))
+
+
+def thread_program(rng, n):
+    """a deterministic, channel-synchronised program whose threads (go / spawn) outlive the statement - and, once cut, the
+    piece - that started them and talk to the main code through globals: every message is answered before the main code
+    goes on, so there is one outcome whatever the schedule"""
+    nw = 1 + rng.below(2)
+    L = ["acc := %d" % rng.below(5), "scale := %d" % (1 + rng.below(3)), "glog := []", "done := chan()"]
+    for w in range(nw):
+        L.append("ch%d := chan(%s)" % (w, rng.choice(["", "", "1"])))
+    starts = []
+    for w in range(nw):
+        upd = rng.choice(["acc = acc + v * scale", "acc += v + scale", "acc = acc * 2 + v", "glog.append(v * scale)", "glog = glog + [v + acc]",
+                          "acc, scale = [scale + v, acc]", "seen%d := acc + v; acc = seen%d" % (w, w)])
+        reply = rng.choice(["acc", "[acc, scale]", "len(glog)", "scale * 100 + acc"])
+        body = "for { v := <-ch%d; if v == 0 { break }; %s; done <- (%s) }; done <- -1" % (w, upd, reply)
+        how = rng.below(5)
+        if how == 0:
+            starts.append("go func() { %s }()" % body)
+        elif how == 1:
+            starts.append("func worker%d() { %s }" % (w, body))
+            starts.append("go worker%d()" % w)
+        elif how == 2:
+            starts.append("func worker%d() { %s }" % (w, body))
+            starts.append("th%d := spawn(worker%d)" % (w, w))
+        elif how == 3:
+            starts.append("th%d := spawn(func() { %s })" % (w, body))
+        else:
+            # the thread is started from inside a function, through a closure over the channel
+            starts.append("func launch%d(c) { go func() { for { v := <-c; if v == 0 { break }; %s; done <- (%s) }; done <- -1 }() }" % (w, upd, reply))
+            starts.append("launch%d(ch%d)" % (w, w))
+    L += starts
+    k = 0
+    for _ in range(3 + rng.below(6)):
+        c = rng.below(6)
+        w = rng.below(nw)
+        if c < 3:
+            # one chunk: when the piece ends the thread has answered and waits for the next message (a thread that is still
+            # running while the next piece is loaded is the class `threads-racing`)
+            L.append("ch%d <- %d\nr%d := <-done" % (w, 1 + rng.below(9), k))
+            k += 1
+        elif c == 3:
+            L.append(rng.choice(["scale = scale + 1", "scale += 2", "scale = acc + 1"]))
+        elif c == 4:
+            L.append(rng.choice(["acc = acc + 100", "acc -= 1", "glog.append(acc)", "glog = [acc]"]))
+        else:
+            L.append("print([acc, scale, glog])")
+    for w in range(nw):
+        L.append("ch%d <- 0\ne%d := <-done" % (w, w))
+    L.append("[acc, scale, glog, %s]" % ", ".join(["r%d" % i for i in range(k)] + ["e%d" % w for w in range(nw)]))
+    return L, any(x.startswith("func launch") for x in L)
+
+
+THREAD_KNOWN = {
+    "threads-nested": ("thread-code-loaded-in-clone-keeps-stale-globals",
+                       "a thread whose function literal is nested in another function (its code is first loaded inside the thread's VM "
+                       "clone) keeps the globals array of the piece that started it: its writes to globals are lost to later pieces and it does "
+                       "not see theirs"),
+    "threads-racing": ("reload-copies-globals-under-running-threads",
+                       "every Run of a later piece copies the globals into a new array; a write to a global by a thread that is running at that "
+                       "moment (the piece boundary lies between a message to the thread and its answer) can be lost - timing dependent"),
+}
+_KNOWN_IDS = None
+_SEEN = {}
+
+
+def known_ids():
+    """ids of the open known findings of this property (known_findings.jsonl and the per-agent known_findings.*.jsonl)"""
+    global _KNOWN_IDS
+    if _KNOWN_IDS is None:
+        import glob, json
+        _KNOWN_IDS = set()
+        for fn in [os.path.join(C.VERIF, "known_findings.jsonl")] + sorted(glob.glob(os.path.join(C.VERIF, "known_findings.*.jsonl"))):
+            if os.path.exists(fn):
+                for line in open(fn):
+                    line = line.strip()
+                    if line and not line.startswith("#"):
+                        j = json.loads(line)
+                        if j.get("property") == PROP and not j.get("fixed") and j.get("id"):
+                            _KNOWN_IDS.add(j["id"])
+    return _KNOWN_IDS
+
+
 def build_repl_tool():
     """the REPL's own evaluator (cmd/risor/repl getEvaluator), driven through a test file that exists only in a
     build overlay: go test -c in the repository's workspace, nothing is written into /repo"""
@@ -89,9 +228,9 @@ def _gl_differ(a, b):
     return False
 
 
-def _judge(res, route, cases, outs, oracle, hist, checked, distinct):
+def _judge(res, route, cases, outs, oracle, hist, checked, distinct, inert=None):
     pos = 0
-    for kind, pieces, ref, k in cases:
+    for ci, (kind, pieces, ref, k) in enumerate(cases):
         o = outs[pos]
         pos += 1
         oref = None
@@ -111,7 +250,7 @@ def _judge(res, route, cases, outs, oracle, hist, checked, distinct):
             checked["skipped_time_budget"] = checked.get("skipped_time_budget", 0) + 1
             continue
         why = None
-        if kind in ("split", "stack-growth"):
+        if kind in ("split", "stack-growth", "threads", "threads-nested", "threads-racing"):
             if whole.startswith("WHOLE OK"):
                 wres, _, wrest = whole[9:].partition(" GLOBALS ")
                 wgl, _, wtr = wrest.partition(" TRACE ")
@@ -130,7 +269,7 @@ def _judge(res, route, cases, outs, oracle, hist, checked, distinct):
             others = results[:k] + results[k + 1:]
             if kind == "parse-reject" and inserted != "REJECT parse":
                 why = None     # the text happened to parse; not a rejected piece
-            elif kind.startswith("compile-reject") and inserted != "REJECT compile":
+            elif kind.startswith("compile-reject") and not inserted.startswith("REJECT compile"):
                 why = None
             elif kind == "runtime-failure":
                 if not inserted.startswith("ERR"):
@@ -149,8 +288,17 @@ def _judge(res, route, cases, outs, oracle, hist, checked, distinct):
                     why = "a rejected piece had an effect on the pieces that follow (results %s vs %s; globals %s vs %s)" % (
                         others[-3:], rres[-3:], gl[-80:], rgl[-80:])
                 checked[kind] = checked.get(kind, 0) + 1
+        if kind == "compile-reject-expr" and ref is not None and k < len(results) and results[k].startswith("REJECT compile"):
+            cls = "inert" if (inert or {}).get(ci) else "leaves-code-behind"
+            checked[kind + ":" + cls] = checked.get(kind + ":" + cls, 0) + 1
+        if why and kind in THREAD_KNOWN:
+            kid, text = THREAD_KNOWN[kind]
+            if kid in known_ids():
+                seen = _SEEN.setdefault(kid, {"count": 0, "text": text, "example": " | ".join(x.replace("\n", "; ") for x in pieces)[:400]})
+                seen["count"] += 1
+                continue
         if why:
-            if kind == "compile-reject-compound":
+            if kind == "compile-reject-compound" or (kind == "compile-reject-expr" and not (inert or {}).get(ci)):
                 res.known_finding("a piece rejected by the compiler after it has emitted code, declared symbols or entered a function "
                                   "body is not rolled back (e.g. pieces `x := 1`, `x = 2; undefined_name`, `x` give 2)")
                 continue
@@ -243,6 +391,20 @@ def run(res):
                 tail = rng.choice(["", "", "\nprint(777)", "\nlimit = 555", "\nlog.append(778)"])
                 kk = max(k, 1)      # after `log`/`t` exist
                 cases.append(("runtime-failure", pieces[:kk] + [body + "\n" + fail + tail] + pieces[kk:], pieces[:kk] + [body] + pieces[kk:], kk))
+            if _ % 2 == 0:
+                # a rejected piece of some expression form, at a random position
+                k2 = rng.below(len(pieces) + 1)
+                cases.append(("compile-reject-expr", pieces[:k2] + [reject_piece(rng, i)] + pieces[k2:], pieces, k2))
+    # programs whose threads live across the piece boundaries
+    for i in range(400 if tier == "quick" else 8000):
+        parts, nested = thread_program(rng, i)
+        kind = "threads-nested" if nested else "threads"
+        for _ in range(2):
+            cases.append((kind, split_parts(rng, parts), None, None))
+        cases.append((kind, list(parts), None, None))      # one chunk per piece
+        if i % 4 == 0 and not nested:
+            # message and answer in different pieces: the thread is running while the next piece is loaded
+            cases.append(("threads-racing", [x for ch in parts for x in ch.split("\n")], None, None))
     # corpus: the design witnesses and the witnesses of repaired defects
     cases.append(("split", ["x := 1; func g() { return x + 1 }", "g()", "x = 10", "g()"], None, None))
     cases.append(("split", ["x := 1", "func g() { x = x + 1; return x }", "g()", "y := 5", "x = 10", "g()", "[x, y]"], None, None))
@@ -294,15 +456,29 @@ def run(res):
     hist = {}
     checked = {}
     distinct = set()
+    _SEEN.clear()
+    # class of every inserted expression reject, decided on what the API route saw the compiler keep of it
+    inert = {}
+    pos = 0
+    for ci, (kind, pieces, ref, k) in enumerate(cases):
+        o = routes["api"][pos]
+        pos += 1 if ref is None else 2
+        if kind == "compile-reject-expr" and o is not None and o.startswith("INC "):
+            results = parse_out(o)[0]
+            if k < len(results) and results[k].startswith("REJECT compile"):
+                inert[ci] = inert_reject(pieces[k], results[k])
     for route, outs in routes.items():
-        _judge(res, route, cases, outs, oracle, hist, checked, distinct)
+        _judge(res, route, cases, outs, oracle, hist, checked, distinct, inert)
     outs = routes["repl"]
     cov["evaluations"] = 2 * len(lines)
     cov["distinct_nontrivial"] = len(distinct)
     cov["rule"] = ("programs of the C01 generator cut into random partitions of their top-level statements and fed to ONE compiler and ONE "
                    "VM - by the REPL's own evaluator (cmd/risor/repl getEvaluator, reached through an overlay test file) and by the same steps through the embedding API, with host-provided globals (a number, a list, a builtin) reassigned and read across pieces - compared with the whole-program run (final globals via vm.Get, last value, print "
                    "trace); with parser-rejected, compiler-rejected (leaf and compound) and run-time-failing pieces (returned errors and recovered panics: frame and stack exhaustion; with statements after the failing one) inserted at random "
-                   "positions, compared with the same history without the insert; plus 1100 one-expression pieces (stack growth). "
+                   "positions, compared with the same history without the insert; rejected one-statement pieces of every expression form (pipes, calls, index, slices, "
+                   "operators, ternary, template strings, literals, attribute access, assignments, function literals, conditions) with an undefined name "
+                   "or a nested pipe inside, judged strictly when the compiler kept nothing of them but plain loads; channel-synchronised programs whose "
+                   "threads (go / spawn) live across the piece boundaries and share globals with the main code; plus 1100 one-expression pieces (stack growth). "
                    "Non-trivial = distinct histories.")
     cov["samples"] = [{"kind": cases[1][0], "pieces": cases[1][1]}, {"impl": outs[0][:300]}]
     cov["input_distribution"] = hist
@@ -312,6 +488,8 @@ def run(res):
         "compiler leaves no trace of a rejected piece is what the oracle checks (and what the known finding is about)",
         "whole-program runs that fail are not compared (the REPL continues after a failure by design)",
     ]
+    for kid, seen in sorted(_SEEN.items()):
+        res.known_finding("%s: %s [%d histories this run, e.g. pieces %s]" % (kid, seen["text"], seen["count"], seen["example"]))
     for v in oracle[:10]:
         v["property"] = PROP
         res.violation(v)
